@@ -10,9 +10,12 @@ import (
 	"sort"
 	"strconv"
 	"strings"
+	"time"
 
 	"golang.org/x/tools/go/ssa"
 )
+
+var procStart = time.Now()
 
 type propFunc func(r *Report) propMeta
 
